@@ -3,6 +3,7 @@ import UtilModel.Routine.ProofsC05
 import UtilModel.Routine.ProofsC14
 import UtilModel.Routine.ProofsK4
 import UtilModel.Routine.ProofsObs
+import UtilModel.Routine.ProofsObs2
 import UtilModel.Routine.ProofsRT
 import UtilModel.Routine.Monitors
 /-!
@@ -43,6 +44,16 @@ theorem C04a_obs (es : List Ev) (s : St) (hr : model.run model.init es = some s)
     monC04a.accepts (es.filterMap model.obs) = true := by
   obtain ⟨ms, h, _⟩ := link_run model.init s {} es good_init linkA_init hr
   have : monC04a.run monC04a.init (es.filterMap model.obs) = some ms := h
+  simp [ObsMonitor.accepts, this]
+
+/-- **C04, observable form, both clauses** (`C04_obs`): the property monitor `monC04` — no two instances execute
+together, and a wait channel returned by SetRoutine/SetState/SetStateRoutine/SwapValue is seen closed only after
+every instance that was executing when the call was invoked has logged its return — accepts the observable trace of
+every run of the model. The same monitor is evaluated by the driver on histories recorded from the real code. -/
+theorem C04_obs (es : List Ev) (s : St) (hr : model.run model.init es = some s) :
+    monC04.accepts (es.filterMap model.obs) = true := by
+  obtain ⟨ms, h, _⟩ := linkB_run model.init s {} es good_init linkB_init hr
+  have : monC04.run monC04.init (es.filterMap model.obs) = some ms := h
   simp [ObsMonitor.accepts, this]
 
 /-- the chain invariant itself (eight clauses of `Core/Chain`) holds in every reachable state -/
